@@ -563,6 +563,10 @@ def enum_preempt(tier, seed):
 # two threads, every schedule: one socket call racing with terminate() ----
 RACE_CALLS = ["ldl-recvfrom", "raw-recv", "dlc-accept", "ldl-poll-recv",
               "ldl-sendto", "resolve", "dlc-connect", "raw-send",
+              # two threads in the same call on ONE socket (x2)
+              "ldl-sendto-x2", "ldl-recvfrom-x2", "raw-recv-x2",
+              "dlc-accept-x2", "dlc-recv-x2", "dlc-send-window-full-x2",
+              "dlc-poll-acks-x2", "resolve-x2",
               # on an established data link connection
               "dlc-recv", "dlc-send", "dlc-send-window-full",
               "dlc-poll-recv", "dlc-poll-send", "dlc-poll-acks"]
@@ -579,6 +583,9 @@ def run_race(case, ctx):
         llc.cfg["send-miu"] = 128
         llc.cfg["llcp-dpc"] = 0
         call = case["call"]
+        twice = call.endswith("-x2")
+        if twice:
+            call = call[:-3]
         DLC, LDL = nfc.llcp.DATA_LINK_CONNECTION, nfc.llcp.LOGICAL_DATA_LINK
         RAW = L.RAW_ACCESS_POINT
         if call in ("ldl-recvfrom", "ldl-poll-recv", "ldl-sendto"):
@@ -654,12 +661,15 @@ def run_race(case, ctx):
                 raise
             except BaseException as e:
                 out["exc"] = e
-            out["done"] = True
+            out["ndone"] = out.get("ndone", 0) + 1
+            out["done"] = out["ndone"] >= (2 if twice else 1)
 
         def link():
             llc.mac = None
             llc.terminate("test")
         s.spawn(app, "app")
+        if twice:
+            s.spawn(app, "app2")
         s.spawn(link, "link")
         s.settle()
         s.sleep(5.0)
